@@ -102,7 +102,15 @@ func (s *vC15Sub) alive() bool {
 	}
 }
 
+// one open PublishAsync session of a client
+type vC15Sess struct {
+	fs     *vC15PubServer
+	cancel context.CancelFunc
+	done   chan error
+}
+
 type vC15Run struct {
+	sess    map[string]*vC15Sess
 	t       *testing.T
 	grpc    client.APIClient // TLS mode: calls go through a real gRPC/TLS connection
 	certCN  string           // TLS mode: the common name of the client certificate stands for client "alice"
@@ -209,6 +217,9 @@ func (r *vC15Run) writePolicy(entries [][]string) {
 // reload sends the real SIGHUP and waits until the enforcer shows the probe
 // entry of the current file version.
 func (r *vC15Run) reload() {
+	if r.srv.authzEnforcer == nil {
+		return // nothing to reload into (and the pinned SIGHUP handler dereferences the missing enforcer)
+	}
 	if err := syscall.Kill(os.Getpid(), syscall.SIGHUP); err != nil {
 		r.t.Fatalf("INCONCLUSIVE: kill: %v", err)
 	}
@@ -227,6 +238,9 @@ func (r *vC15Run) reload() {
 }
 
 func (r *vC15Run) loadedPolicy() [][]string {
+	if r.srv.authzEnforcer == nil {
+		return [][]string{}
+	}
 	r.srv.authzEnforcer.authzLock.RLock()
 	pol, _ := r.srv.authzEnforcer.enforcer.GetPolicy()
 	r.srv.authzEnforcer.authzLock.RUnlock()
@@ -347,8 +361,13 @@ func (r *vC15Run) world() map[string]interface{} {
 		}
 	}
 	sort.Strings(members)
+	sessions := []string{}
+	for who := range r.sess {
+		sessions = append(sessions, who)
+	}
+	sort.Strings(sessions)
 	return map[string]interface{}{"policy": r.loadedPolicy(), "policyFile": r.filePolicy(), "st": st, "cursors": cur,
-		"members": members}
+		"members": members, "sessions": sessions, "enforcer": r.srv.authzEnforcer != nil}
 }
 
 // ---- calls -----------------------------------------------------------------------
@@ -521,14 +540,29 @@ func (r *vC15Run) callTLS(c map[string]interface{}) (string, string) {
 	return "Ok", ""
 }
 
+// publishAsync sends one message on the client's PublishAsync session; the session is opened by the
+// client's first message and stays open until the end of the behaviour (the Go client multiplexes all
+// publishes of a connection over one such stream).
 func (r *vC15Run) publishAsync(who, stream string) (string, string) {
-	ctx, cancel := context.WithCancel(vC15Ctx(who))
-	defer cancel()
-	fs := &vC15PubServer{vC15Stream: vC15Stream{ctx: ctx}, reqs: make(chan *client.PublishRequest, 1),
-		resps: make(chan *client.PublishResponse, 16)}
-	done := make(chan error, 1)
-	go func() { done <- r.srv.api.PublishAsync(fs) }()
-	fs.reqs <- &client.PublishRequest{Stream: stream, Value: []byte("v"), AckPolicy: client.AckPolicy_LEADER, CorrelationId: "k"}
+	if r.sess == nil {
+		r.sess = map[string]*vC15Sess{}
+	}
+	se := r.sess[who]
+	if se == nil {
+		ctx, cancel := context.WithCancel(vC15Ctx(who))
+		se = &vC15Sess{fs: &vC15PubServer{vC15Stream: vC15Stream{ctx: ctx}, reqs: make(chan *client.PublishRequest, 1),
+			resps: make(chan *client.PublishResponse, 16)}, cancel: cancel, done: make(chan error, 1)}
+		go func(se *vC15Sess) { se.done <- r.srv.api.PublishAsync(se.fs) }(se)
+		r.sess[who] = se
+	}
+	fs := se.fs
+	select {
+	case fs.reqs <- &client.PublishRequest{Stream: stream, Value: []byte("v"), AckPolicy: client.AckPolicy_LEADER, CorrelationId: "k"}:
+	case err := <-se.done:
+		delete(r.sess, who)
+		se.cancel()
+		return vC15Res(err), fmt.Sprint(err)
+	}
 	res, detail := "", ""
 	wait := 5 * time.Second
 collect:
@@ -557,13 +591,20 @@ collect:
 			break collect
 		}
 	}
-	close(fs.reqs)
-	select {
-	case <-done:
-	case <-time.After(vC15Deadline):
-		r.t.Fatalf("INCONCLUSIVE: PublishAsync handler did not return")
-	}
 	return res, detail
+}
+
+func (r *vC15Run) closeSessions() {
+	for who, se := range r.sess {
+		close(se.fs.reqs)
+		select {
+		case <-se.done:
+		case <-time.After(vC15Deadline):
+			r.t.Fatalf("INCONCLUSIVE: PublishAsync handler did not return")
+		}
+		se.cancel()
+		delete(r.sess, who)
+	}
 }
 
 // generic invokes a unary method the model does not know (newly added to the
@@ -698,9 +739,17 @@ func vC15Main(t *testing.T, tlsMode bool) {
 		cfg.TLSClientAuth, cfg.TLSClientAuthCA = true, "./configs/certs/ca-cert.pem"
 		cfg.TLSClientAuthz = true
 		cfg.TLSClientAuthzModel, cfg.TLSClientAuthzPolicy = filepath.Join(dir, "model.conf"), filepath.Join(dir, "policy.csv")
+		// configuration route: authorisation enabled but the policy / model path is missing from the configuration
+		route := os.Getenv("VERIF_C15_ENFORCER")
+		switch route {
+		case "nopolicy":
+			cfg.TLSClientAuthzPolicy = ""
+		case "nomodel":
+			cfg.TLSClientAuthzModel = ""
+		}
 		srv = vOneNodeServer(t, cfg)
 		defer srv.Stop()
-		if srv.authzEnforcer == nil {
+		if srv.authzEnforcer == nil && route == "" {
 			t.Fatalf("INCONCLUSIVE: server did not build an enforcer")
 		}
 		pool := x509.NewCertPool()
@@ -783,6 +832,7 @@ func vC15Main(t *testing.T, tlsMode bool) {
 			}
 			tw.Emit(map[string]interface{}{"a": a, "t": b.ID, "args": args, "st": r.world(), "obs": obs})
 		}
+		r.closeSessions()
 		r.closeSubs()
 	}
 }
